@@ -29,6 +29,7 @@ def sh(cmd, cwd=None, timeout=1800):
 def main():
     pid, src, n = sys.argv[1], sys.argv[2], sys.argv[3]
     keep = None
+    scratch = False  # run the checks against a scratch worktree through -modfile instead of patching /repo
     tier = "quick"
     checks = [pid]
     a = sys.argv[4:]
@@ -42,6 +43,9 @@ def main():
         elif a[0] == "--also":
             checks += a[1].split(",")
             a = a[2:]
+        elif a[0] == "--scratch":
+            scratch = True
+            a = a[1:]
         else:
             raise SystemExit("bad arg " + a[0])
     patch = os.path.join(src, f"m{n}.patch")
@@ -75,7 +79,29 @@ def main():
     ok = res.get("patch_applies") and res.get("demo_fails_with_patch") and res.get("demo_passes_without_patch") and res.get("suite_passes_with_patch")
     res["confirmed"] = bool(ok)
     res["checks"] = {}
-    if ok:
+    if ok and scratch:
+        wt2 = f"/tmp/svm-{pid}-{n}-{os.getpid()}"
+        try:
+            rc, out = sh(f"git -C /repo worktree add -q --detach {wt2} HEAD")
+            assert rc == 0, out
+            rc, out = sh(f"git apply {patch}", cwd=wt2)
+            assert rc == 0, out
+            mod = open(os.path.join(VERIF, "harness", "go.mod")).read().replace("=> /repo", "=> " + wt2)
+            open(wt2 + ".mod", "w").write(mod)
+            shutil.copy(os.path.join(VERIF, "harness", "go.sum"), wt2 + ".sum")
+            for c in checks:
+                t0 = time.time()
+                rc, out = sh(f"VERIF_MODFILE={wt2}.mod python3 bin/check.py {c} --tier {tier}", cwd=VERIF, timeout=7200)
+                viol = [l for l in out.splitlines() if l.startswith("VIOLATION") or "violation detail" in l]
+                res["checks"][c] = {"exit": rc, "wall_s": round(time.time() - t0, 1), "lines": viol[:4], "via": "scratch worktree + -modfile"}
+        finally:
+            sh(f"git -C /repo worktree remove --force {wt2}")
+            shutil.rmtree(wt2, ignore_errors=True)
+            for ext in (".mod", ".sum"):
+                if os.path.exists(wt2 + ext):
+                    os.remove(wt2 + ext)
+        sh("git checkout -- evidence", cwd=VERIF)
+    elif ok:
         rc, out = sh("git -C /repo status --short")
         assert out.strip() == "", "/repo not clean: " + out
         try:
